@@ -6,8 +6,8 @@ Tie A: translator `matmul_gf2` regenerates the order of `% 2` and the saturating
 Tie B: the hand model of compile_scalar_graphs / evaluate (Model/Compile.v, Model/Evaluate.v) is run inside Coq
        (vm_compute) on the same scalar-graph lists as the implementation:
          * every array of the Python `CompiledScalarGraphs` equals the model's table -- integer-exact;
-         * the exact (coeffs, power) the implementation hands to `to_complex` (captured by running `evaluate`
-           eagerly with `to_complex` wrapped from outside) equals the model's, as exact dyadic values;
+         * the exact (coeffs, power) the implementation hands to `to_complex` (captured by tracing the body of `evaluate`
+           inside our own jax.jit with `to_complex` wrapped from outside) equals the model's, as exact dyadic values;
 Search: independently of the model, `evaluate(compile(gs, ps), rows)` (the real, jitted code) is compared with
        the sum of pyzx's `evaluate_scalar` formula computed in exact arithmetic (python ints in Z[w][1/2]; floats
        only for approximate factors).  Any difference beyond float32 rounding is a violation, the input is the
@@ -36,21 +36,23 @@ IMPORTS = ("From Coq Require Import ZArith List Bool. Import ListNotations.\n"
            "TV.Model.Compile TV.Model.Evaluate.\nOpen Scope Z_scope.\n")
 
 MANIFEST = dict(
-    text="For every list of scalar ZX diagrams, every duplicate-free parameter list covering their variables and every "
-         "0/1 assignment, the value of tsim's compiled evaluator (model of compile_scalar_graphs + evaluate, int32 wrap and "
-         "uint8 arithmetic included) equals the sum of pyzx's evaluate_scalar formula over the diagrams, in every commutative "
-         "ring with w^4=-1 and 1/2 (theorem C10_eval, under the explicit, decidable int32 no-wrap guard of C09); the GF(2) "
-         "row sums equal the parity of mask AND bits for every width (C10_gf2; the cast-before-mod variant is refuted at "
-         "256 set bits, C10_gf2_saturating_refuted).  The model is tied to the running code on harvested and synthetic "
-         "inputs: compiled tables integer-exact, evaluator outputs exact, and evaluate(compile(..)) is compared with an "
-         "independent exact-arithmetic reference of pyzx's formula.",
-    note="Trusted: Coq kernel; the hand models Model/Compile.v, Model/Evaluate.v (tied by the correspondence, not by proof); "
-         "the translators matmul_gf2/exact_scalar; JAX semantics assumed and validated by the correspondence: float32 matmul "
-         "of 0/1 vectors exact below 2^24, float32->uint8 cast saturates, uint8/int32 wrap, x[idx] clamps; pyzx's "
-         "evaluate_scalar is the reference semantics (its formula is restated in Props/C10.v and cross-checked numerically "
-         "against pyzx itself); approximate (complex64) factors are opaque ring elements in the theorem and compared "
-         "within single precision; to_complex is floating point and not modelled.",
-    technique="Coq proof over hand model + regenerated flag (ast translator); vm_compute correspondence; exact-arithmetic differential search",
+    text="For every list of scalar ZX diagrams (pyzx Scalar fields: phase nodes, half-pi, pi-pair and phase-pair terms, phase, power of "
+         "sqrt2, dyadic and floating factors, zero flag), every duplicate-free parameter list covering their variables and every 0/1 "
+         "assignment, the value returned by the model of compile_scalar_graphs + evaluate (uint8 arithmetic, padding/masking, int32 wrap "
+         "included) equals the sum of pyzx's evaluate_scalar formula over the diagrams, in every commutative ring with w^4=-1 and 1/2 "
+         "(theorem C10_eval, under the explicit decidable int32 no-wrap guard inherited from C09; C10_compile_total, C10_all_zero_value). "
+         "The GF(2) row sums equal the parity of mask AND bits for every width (C10_gf2); the cast-before-mod variant is refuted at 256 "
+         "set bits (C10_gf2_cast_before_mod_refuted).  The model is tied to the running code on scalar-graph lists harvested from the real "
+         "pipeline and on synthetic lists: compiled tables integer-exact, evaluator outputs exact, and evaluate(compile(..)) is compared "
+         "with an independent exact-arithmetic restatement of pyzx's formula on every assignment tried.",
+    note="Trusted: Coq kernel; the hand models Model/Compile.v, Model/Evaluate.v (tied by the correspondence, not by proof); the translators "
+         "matmul_gf2 (order of `% 2` and the uint8 cast; guard for an empty graph axis) and exact_scalar; JAX semantics assumed and validated "
+         "by the correspondence: float32 matmul of 0/1 vectors exact below 2^24, float32->uint8 cast saturates, uint8/int32 wrap, x[idx] "
+         "clamps; pyzx's evaluate_scalar is the reference semantics (restated as `scalar_value` in Model/Compile.v and in exact python "
+         "arithmetic, the latter cross-checked numerically against pyzx itself); approximate (complex64) factors are opaque ring elements "
+         "in the theorem and compared within single precision; to_complex is floating point and not modelled; inputs outside the no-wrap "
+         "guard (products of roughly 50 or more T-type factors) are outside the theorem and a recorded finding.",
+    technique="Coq proof over hand model + regenerated flags (ast translator); vm_compute correspondence; exact-arithmetic differential search",
     design_ref="DESIGN.md 4.C10",
 )
 
@@ -456,7 +458,7 @@ def synthetic(ctx: Ctx):
     add("phase-not-multiple-of-quarter", ["a"], [blank(phase=[1, 3]), blank(phase=[7, 5], phasenodes=[[1, 4, ["a"]]]), blank(phase=[1, 8])])
     # --- structure: no terms, no graphs left, zero graphs, padding from unequal term counts
     add("no-terms", ["a", "b"], [blank(), blank(power2=2)])
-    add("all-zero", ["a"], [blank(is_zero=True), blank(is_zero=True, phasenodes=[[1, 1, []]])])        # known finding: raises
+    add("all-zero", ["a"], [blank(is_zero=True), blank(is_zero=True, phasenodes=[[1, 1, []]])])        # nothing left after compilation: the sum is 0
     add("no-params", [], [blank(phasenodes=[[1, 4, []]]), blank(phase=[1, 2])])
     add("zero-graph-dropped", P3, [blank(is_zero=True, phasenodes=[[1, 1, []], [1, 4, ["a"]]]), blank(phasenodes=[[1, 4, ["a"]]]),
                                    blank(is_zero=True), blank(phasepairs=[[1, 1, ["b"], ["c"]]])])
@@ -531,15 +533,25 @@ def synthetic(ctx: Ctx):
 
 
 def choose_rows(ctx: Ctx, case):
+    """all 2^n assignments when that is affordable (n <= 8 quick / 12 thorough and rows x graphs within the budget of the
+    vm_compute model run), otherwise 0..0, 1..1 and random assignments"""
     if "rows" in case:
         return
     n = len(case["params"])
+    kept = [g for g in case["graphs"] if not g["is_zero"]]
+    width = 6 + sum(max((len(g[f]) + (len(g["halfpi3"]) if f == "halfpi1" else 0) for g in kept), default=0)
+                    for f in ("phasenodes", "halfpi1", "pi_pair", "phasepairs"))
+    ng = max(1, len(kept)) * width                  # padded term evaluations per row in the Coq model
     lim = 8 if ctx.quick else 12
-    if n <= lim:
+    budget = 25000 if ctx.quick else 120000        # ~0.25 ms each: int32 wrap-around via Z.modulo dominates the vm_compute run
+    if n <= lim and (2 ** n) * ng <= budget:
         case["rows"] = "all"
     else:
-        k = 48 if ctx.quick else 400
-        case["rows"] = [[0] * n, [1] * n] + [[ctx.rng.randrange(2) for _ in range(n)] for _ in range(k)]
+        k = max(4, min(48 if ctx.quick else 400, budget // ng, 2 ** n))
+        rows = {tuple([0] * n), tuple([1] * n)}
+        while len(rows) < min(k, 2 ** n):
+            rows.add(tuple(ctx.rng.randrange(2) for _ in range(n)))
+        case["rows"] = [list(r) for r in sorted(rows)]
 
 
 # =====================================================================================
@@ -775,7 +787,7 @@ def check_case(ctx: Ctx, case, model_out, opaque, mods) -> None:
                 "first_value": str(got[0]) if len(got) else None})
 
     # ---- exact outputs of the implementation vs the model, every row
-    if m_rows is not None and worst is None:
+    if m_rows is not None and worst is None and kept:
         pick = list(range(len(rows)))
         try:
             cap = exact_capture(EV, ESA, comp, rows, batch)
@@ -880,15 +892,19 @@ def run_model(ctx: Ctx, cases):
         vid = var_ids(c, ctx.rng)
         t = model_term(c, vid, op)
         opq[c["name"]] = op
-        if chunk and (size + len(t) > 400_000 or len(chunk) >= 40):
+        if chunk and (size + len(t) > 400_000 or len(chunk) >= 6):
             chunks.append(chunk)
             chunk, size = [], 0
         chunk.append((c["name"], t))
         size += len(t)
     if chunk:
         chunks.append(chunk)
+    import time as _t
     for i, ch in enumerate(chunks):
+        t0 = _t.time()
         vals = cq.eval_terms(f"c10_cases_{i}", IMPORTS, [t for _, t in ch], defs=DEFS, timeout=1500)
+        if _t.time() - t0 > 10:
+            ctx.log(f"model chunk {i} took {_t.time() - t0:.1f}s: {[nm for nm, _ in ch]}")
         for (nm, _), v in zip(ch, vals):
             out[nm] = v
     return out, opq
